@@ -71,7 +71,7 @@ def seeds_md():
         m = json.load(open(mj))
         fired = matrix.get(sd, {}).get("fired", {})
         fs = "; ".join("%s: %s" % (p, ", ".join("`%s`" % k for k in v[:2]) + (" …" if len(v) > 2 else "")) for p, v in fired.items()) or "**missed**"
-        out.append("| %s | %s | %s | %s | %s | %s |" % (sd, m["change"].replace("|", "\\|"), m["needs"].replace("|", "\\|"), m["confirmed"], m["first_run"], fs.replace("|", "\\|")))
+        out.append("| %s | %s | %s | %s | %s | %s |" % (sd, m["change"].replace("|", "\\|"), (m["needs"][:230] + ("…" if len(m["needs"]) > 230 else "")).replace("|", "\\|"), m["confirmed"], m["first_run"], fs.replace("|", "\\|")))
     return "\n".join(out)
 
 
